@@ -208,6 +208,8 @@ pub fn run_sampled(sc: &SScript, cov: &mut Cov) -> Option<(String, String, usize
     let mut model: HashMap<u64, i64> = HashMap::new();
     let mut max = sc.max_cost;
     let probes = [0i64, 1, -7, 1000, 1 << 33];
+    let nops = sc.ops.len();
+    let mut run_sum: i64 = 0;
     for (i, op) in sc.ops.iter().enumerate() {
         let was = |k: &u64| model.contains_key(k);
         // key-API operations address the entry of the key's hash
@@ -232,18 +234,18 @@ pub fn run_sampled(sc: &SScript, cov: &mut Cov) -> Option<(String, String, usize
             match op {
                 SOp::IncH(h, c) => {
                     real.inc_h(*h, *c);
-                    model.insert(*h, *c);
+                    run_sum += *c - model.insert(*h, *c).unwrap_or(0);
                 }
                 SOp::IncK(k, c) => {
                     real.inc_k(*k, *c);
-                    model.insert(target.unwrap(), *c);
+                    run_sum += *c - model.insert(target.unwrap(), *c).unwrap_or(0);
                 }
                 SOp::UpdH(_, c) | SOp::UpdK(_, c) => {
                     let h = &target.unwrap();
                     let got = if let SOp::UpdH(hh, _) = op { real.upd_h(*hh, *c) } else if let SOp::UpdK(kk, _) = op { real.upd_k(*kk, *c) } else { false };
                     let exp = model.contains_key(h);
                     if exp {
-                        model.insert(*h, *c);
+                        run_sum += *c - model.insert(*h, *c).unwrap_or(0);
                     }
                     if got != exp {
                         return Some(format!("{} returned {} but the key was {}", op.name(), got, if exp { "tracked" } else { "not tracked" }));
@@ -253,6 +255,7 @@ pub fn run_sampled(sc: &SScript, cov: &mut Cov) -> Option<(String, String, usize
                     let h = &target.unwrap();
                     let got = if let SOp::RemH(hh) = op { real.rem_h(*hh) } else if let SOp::RemK(kk) = op { real.rem_k(*kk) } else { None };
                     let exp = model.remove(h);
+                    run_sum -= exp.unwrap_or(0);
                     if got != exp {
                         return Some(format!("{} returned {:?}, the recorded cost was {:?}", op.name(), got, exp));
                     }
@@ -260,6 +263,7 @@ pub fn run_sampled(sc: &SScript, cov: &mut Cov) -> Option<(String, String, usize
                 SOp::Clear => {
                     real.clear_();
                     model.clear();
+                    run_sum = 0;
                 }
                 SOp::Max(m) => {
                     real.set_max(*m);
@@ -294,8 +298,9 @@ pub fn run_sampled(sc: &SScript, cov: &mut Cov) -> Option<(String, String, usize
                     }
                 }
             }
-            // ledger
-            let sum: i64 = model.values().sum();
+            // ledger (the sum is recomputed from the model every 64th op and at the end, and
+            // carried incrementally in between, to keep long scripts linear)
+            let sum: i64 = if i % 64 == 0 || i + 1 == nops || model.len() < 64 { model.values().sum() } else { run_sum };
             if real.max() != max {
                 return Some(format!("get_max_cost() = {}, last update_max_cost/constructor value {}", real.max(), max));
             }
@@ -382,10 +387,34 @@ pub fn c20_suite(ctx: &Ctx) -> ShardOut {
         SScript { max_cost: 10, samples: 2, ctor: 1, ops: vec![SOp::IncH(1, 1), SOp::IncH(2, 2), SOp::IncH(3, 3), SOp::Fill(vec![]), SOp::Fill(vec![(9, 9)]), SOp::Fill(vec![(9, 9), (8, 8)]), SOp::Fill(vec![(9, 9), (8, 8), (7, 7)]), SOp::Max(0), SOp::Max(-3)] },
         SScript { max_cost: 0, samples: 0, ctor: 2, ops: vec![SOp::Fill(vec![]), SOp::IncH(0, 0), SOp::Fill(vec![(1, 1)]), SOp::RemH(0), SOp::RemH(0)] },
     ];
+    // long scripts: effects that need tens of thousands of mutations or of tracked keys
+    if ctx.shard == 0 && !cfg!(miri) {
+        let mut a = vec![];
+        for i in 0..70_000u64 {
+            a.push(SOp::IncH(i, (i % 7) as i64 + 1));
+        }
+        for i in 0..200u64 {
+            a.push(SOp::IncH(i * 31, 5));
+            a.push(SOp::UpdH(i * 17, 3));
+            a.push(SOp::RemH(i * 13));
+        }
+        a.push(SOp::Fill(vec![(1, 1)]));
+        let mut b = vec![];
+        for i in 0..60_000u64 {
+            b.push(SOp::IncK(i, 2));
+        }
+        for i in 3..60_000u64 {
+            b.push(SOp::RemK(i));
+        }
+        b.push(SOp::Clear);
+        b.extend([SOp::UpdH(0, 9), SOp::RemH(1), SOp::Fill(vec![]), SOp::IncH(5, 5), SOp::RemK(2), SOp::Fill(vec![(9, 9)])]);
+        scripts.push(SScript { max_cost: 1 << 40, samples: 5, ctor: 0, ops: a });
+        scripts.push(SScript { max_cost: 1 << 40, samples: 7, ctor: 7, ops: b });
+    }
     while (out.cov.monitored as u64) < ctx.ops && Instant::now() < deadline {
         let sc = scripts.pop().unwrap_or_else(|| gen_sampled(&mut rng));
         out.cov.histories += 1;
-        if out.cov.samples.len() < 3 {
+        if out.cov.samples.len() < 3 && sc.ops.len() < 100 {
             out.cov.samples.push(format!("SampledLFU max_cost={} samples={}: {}", sc.max_cost, sc.samples, sc.ops.iter().take(14).map(|o| o.text()).collect::<Vec<_>>().join("; ")));
         }
         if let Some((rule, _, _)) = run_sampled(&sc, &mut out.cov) {
